@@ -277,7 +277,8 @@ def new_work(ctx, fx):
 
 def winners(ctx, fx):
     ctx.rule("C07.winner.by-id", "alwaysAcquire (all context flavours): the conflict decision is `other id < this id` on the "
-             "item ids only; the loser is marked not ready; stealing uses the CAS on the owner word")
+             "item ids only; the loser is marked not ready; stealing uses the CAS on the owner word; the holder handed to the CAS is one "
+             "whose id was compared after it was (re)loaded -- on every path from a load of the holder to the steal attempt")
     ctx.rule("C07.newitem.order", "DNewItem::operator< / == read only (parent, count), lexicographically")
     fs = [f for f in insts(fx, DC + "::alwaysAcquire") + insts(fx, DC + "::acquireRead") + insts(fx, DC + "::acquireWrite")]
     ctx.floor("deterministic acquire functions", len(fs), 8)
@@ -305,7 +306,29 @@ def winners(ctx, fx):
         cas = lambda t: t.get("k") == "call" and t.get("name") == "stealByCAS"
         if any(True for _ in fn.events(oth_nr)) and fn.guarded_positions(oth_nr, cas, True):
             det.append("loser disabled without having won the CAS")
-        ctx.ob("C07.winner.by-id", f["qn"], not det, "; ".join(det), fn.loc(), "conflict", fnkey=f["key"])
+        # the holder the lock is stolen from is the holder whose id was compared: every (re)load of `other` is followed by
+        # the id comparison before the steal is attempted with it (a failed CAS means the holder changed -- the new holder may
+        # have the smaller id, and stealing from it makes the larger id commit first)
+        steal = is_call(name="stealByCAS")
+        steals = [e for _, e in fn.events(steal)]
+        if steals and confl:
+            victim = None
+            for e in steals:
+                a = e.get("a", [])
+                if len(a) >= 2:
+                    victim = S(a[-1])
+            loads = [(p, e) for p, e in fn.events(lambda e: (e.get("k") == "assign" and e.get("lp") == victim and e.get("op") == "=") or
+                                                  (e.get("k") == "decl" and e.get("n") == victim and "init" in e))]
+            cmpd = lambda e: e.get("k") == "decl" and e.get("n") == "conflict"
+            if victim is None or not loads:
+                det.append("the holder handed to stealByCAS is not a reloaded local")
+            for p, e in loads:
+                # a holder that is null (free lock) needs no comparison: only paths on which it is non-null count
+                nn = fn.guard_edges(lambda t, v=victim: S(t) == v, False)
+                if fn.reaches_without(steal, cmpd, starts=[fn.after(p)], edge_ok=lambda b, i, s_: (b, i) not in nn):
+                    det.append("the holder reloaded at line %s reaches stealByCAS without its id having been compared with "
+                               "this context's: after a failed CAS the lock may be stolen from a context with a smaller id" % e.get("l"))
+        ctx.ob("C07.winner.by-id", f["qn"], not det, "; ".join(sorted(set(det))), fn.loc(), "conflict", fnkey=f["key"])
     NI = "galois::runtime::internal::DNewItem"
     fs = insts(fx, NI + "::operator<")
     ctx.floor("DNewItem::operator<", len(fs), 1)
